@@ -107,6 +107,9 @@ def gen_shapes(rep, tier):
     # (1) every simple 3-4-vertex ring on the 3x3 sub-grid, every start vertex, both windings
     for r in rings3 + rings4:
         yield dict(kind='polygon', coords=poly_coords([r]), sem=[r], cls='polygon:shell')
+    if not quick:      # every simple 5-vertex ring (every start vertex, both windings)
+        for r in U.all_simple_rings(5):
+            yield dict(kind='polygon', coords=poly_coords([r]), sem=[r], cls='polygon:shell5')
     # (2) one hole wound opposite to the shell, both ways round
     for c in canon:
         shell = list(c)
@@ -472,7 +475,7 @@ def run(rep):
     numba.set_num_threads(1)
     rep.rule = ('shape vertices on even coordinates of a 3x3 sub-grid, points on every integer of '
                 '-1..5 squared plus 5 far points plus 2 missing slots; every simple ring of 3-4 '
-                'vertices (every start vertex, both windings), 0-2 holes wound opposite, multipolygons '
+                'vertices (thorough: 5; every start vertex, both windings), 0-2 holes wound opposite, multipolygons '
                 'of 1-2 parts (touching / apart / far), every polyline of <=3 vertices with repeats, '
                 'multilines, multipoints, points; seeded random 5-7-vertex rings on a 5x5 grid; each '
                 'shape through array / inds / scalar forms, all 5 subtypes; a case is one shape x one '
